@@ -14,8 +14,11 @@
 #include "mm-internal.h"
 static void *vpd_malloc(size_t sz);
 static void *vpd_calloc(size_t n, size_t sz);
+static void vpd_free(void *p);
 #undef mm_malloc
 #undef mm_calloc
+#undef mm_free
+#define mm_free(p) vpd_free((p))
 #define mm_malloc(sz) vpd_malloc((sz))
 #define mm_calloc(n, sz) vpd_calloc((n), (sz))
 /* memset(obj, 0, sizeof(T)) on a typed object goes through a byte view under cbmc's model, after which the fields are
